@@ -43,7 +43,12 @@ func c05Contents(maxRows int) [][][]any {
 	// two fixed six-row tables with ties in every column
 	out = append(out,
 		[][]any{{int64(2), int64(1), "y", true}, {int64(1), int64(1 << 40), "x", false}, {int64(2), int64(1), "x", true}, {int64(1), int64(1), "y", false}, {int64(2), int64(1 << 40), "y", true}, {int64(1), int64(1), "x", true}},
-		[][]any{{int64(3), int64(5), "b", false}, {int64(3), int64(5), "a", true}, {int64(1), int64(7), "b", true}, {int64(3), int64(6), "c", false}, {int64(1), int64(5), "a", false}, {int64(2), int64(5), "b", true}})
+		[][]any{{int64(3), int64(5), "b", false}, {int64(3), int64(5), "a", true}, {int64(1), int64(7), "b", true}, {int64(3), int64(6), "c", false}, {int64(1), int64(5), "a", false}, {int64(2), int64(5), "b", true}},
+		// negative and extreme numbers, strings of different length and case (byte order): "" < "B" < "a" < "aB" < "ab" < "b"
+		[][]any{{int64(-5), int64(-(1 << 40)), "", true}, {int64(0), int64(1 << 62), "a", false}, {int64(7), int64(-1), "ab", true}, {int64(-5), int64(5), "B", false},
+			{int64(2147483647), int64(0), "b", true}, {int64(-2147483648), int64(9223372036854775807), "aB", false}, {int64(1), int64(1), "x", true}},
+		// strings that spell keywords, operators and punctuation
+		[][]any{{int64(1), int64(1), "or", true}, {int64(2), int64(2), "limit", false}, {int64(3), int64(3), "=", true}, {int64(4), int64(4), "true", false}, {int64(5), int64(5), "select", true}, {int64(6), int64(6), ",", false}})
 	return out
 }
 
@@ -59,6 +64,9 @@ func c05Atoms(full bool) []qAtom {
 	var out []qAtom
 	ints := []qExpr{qc("", "a"), qc("", "b"), ql(int64(1)), ql(int64(2)), ql(int64(1 << 40))}
 	strs := []qExpr{qc("", "c"), ql("x"), ql("y")}
+	if full {
+		strs = append(strs, ql("or"), ql("limit"), ql("TRUE"), ql("="))
+	}
 	bools := []qExpr{qc("", "d"), ql(true), ql(false)}
 	for _, l := range ints {
 		for _, r := range ints {
@@ -178,7 +186,7 @@ func runC05(env *lib.Env, rep *lib.Report) {
 	maxRows := 3
 	contents := c05Contents(maxRows)
 	qs := buildC05Queries(env.Thorough())
-	rep.Bounds["table contents"] = fmt.Sprintf("%d: every multiset of <= %d rows over a in {1,2}, b in {1,2^40}, c in {x,y}, d in {true,false}, the empty table, two fixed 6-row tables with ties", len(contents), maxRows)
+	rep.Bounds["table contents"] = fmt.Sprintf("%d: every multiset of <= %d rows over a in {1,2}, b in {1,2^40}, c in {x,y}, d in {true,false}, the empty table, two fixed 6-row tables with ties, one 7-row table with negative/extreme numbers and strings of different length and case", len(contents), maxRows)
 	rep.Bounds["WHERE conditions"] = fmt.Sprintf("%d: every single atom (col|lit op col|lit, six operators, type-correct), every 2- and 3-atom AND/OR pattern over 8 representative atoms%s", len(qs.conds), map[bool]string{true: ", every 4-atom pattern over 5 atoms", false: ""}[env.Thorough()])
 	rep.Bounds["select lists"] = fmt.Sprintf("%d: *, every ordered list of <= 2 items from 11 (columns, aliased, qualified, comparison expressions, literals; repeated columns included)", len(qs.lists))
 	rep.Bounds["ORDER BY lists"] = len(qs.sorts)
